@@ -40,8 +40,9 @@ CLAIMS = {
             "the forbidden construct is present; section / metadata_entry / check_alias / check_note / comp_body emit at most one "
             "diagnostic of the documented severity; all diagnostics queued by component parsers are Error/Warning events "
             "(only_diags); every primary label satisfies Span::ok. Analysis diagnostics and the short-circuit are not decided.", VERUS),
-    "C08": ("proof", "Partial (value level). Contracts on the real linear_scale, ScalableValue::{scale,default_scale} and "
-            "ScalableQuantity::{scale,default_scale}: a locked value is returned verbatim with outcome Fixed for every factor; a "
+    "C08": ("proof", "Partial (value and component level). Contracts on the real linear_scale, ScalableValue::{scale,default_scale}, "
+            "ScalableQuantity::{scale,default_scale} and the Scale impls of Ingredient, Cookware and Timer (names, aliases, notes, "
+            "relations and modifiers untouched; NoQuantity exactly when there is no quantity): a locked value is returned verbatim with outcome Fixed for every factor; a "
             "scalable number/range is replaced end-wise by the f64 product of its value and the factor (the product is an "
             "uninterpreted float relation: the contract pins which operands are multiplied, not the rounded result), outcome Scaled; "
             "text is unchanged with outcome Error; default scaling returns the written value; the unit is kept. Recipe-level "
